@@ -26,7 +26,6 @@ def model(p):
     """p: dict of the 14 template parameters.  Returns None when the description is outside the modelled family,
     else {'accept': bool, 'types': {name: {...}}}"""
     if p['cc'] == 8: return {'accept': False}
-    if p['clash'] == 2: return None
     out = {}
     word = 'u64' if p['ps'] == 8 else 'u32'
     A_tab = base_fns(p['cc']) if p['a_vft'] else None
@@ -62,8 +61,9 @@ def model(p):
         add('b', out[second]['assoc'])
         if second_tab: add('b', [(f[0], None, 'pub') for f in second_tab])
     if p['d_impl']:
-        if 'kd' in used: return {'accept': False}
-        used.add('kd'); assoc.append(('kd', ('address', 0x300), 'pub'))
+        dn = 'k' if p['clash'] == 2 else 'kd'
+        if dn in used: return {'accept': False}       # an impl function whose name is already taken is an error
+        used.add(dn); assoc.append((dn, ('address', 0x300), 'pub'))
     D['assoc'] = assoc
     D['regions'] = (['vftable'] if D['own_ptr'] else []) + ['a'] + (['b'] if p['two_bases'] else []) + ['dx']
     D['base_types'] = ['A'] + ([second] if p['two_bases'] else [])
